@@ -239,7 +239,7 @@ def run(ctx):
     ctx.floor("R2", 23)
 
     # ---- R3 isotope substitution ---------------------------------------------
-    s_sub = fsite(ctx, "formulas._isotope_substitution")
+    s_sub = fsite(ctx, "formulas._isotope_substitution", "formulas.Formula.replace")
     H1, D, H = A["H1"], A["DT"], A["H"]
     p = sp.Symbol("p", positive=True)
     f = I.call(fm, [{H1: q[0], O: q[1], D: q[2]}], {"density": d})
